@@ -322,7 +322,8 @@ class Summaries:
         @reg('<I as std::iter::IntoIterator>::into_iter', '<std::collections::HashMap<K, V, S, A> as std::iter::IntoIterator>::into_iter',
              '<std::vec::Vec<T, A> as std::iter::IntoIterator>::into_iter',
              "std::array::<impl std::iter::IntoIterator for &'a [T; N]>::into_iter", "core::array::<impl std::iter::IntoIterator for &'a [T; N]>::into_iter",
-             "<&'a std::vec::Vec<T, A> as std::iter::IntoIterator>::into_iter", "core::slice::iter::<impl std::iter::IntoIterator for &'a [T]>::into_iter")
+             "<&'a std::vec::Vec<T, A> as std::iter::IntoIterator>::into_iter", "core::slice::iter::<impl std::iter::IntoIterator for &'a [T]>::into_iter",
+             "std::array::iter::<impl std::iter::IntoIterator for [T; N]>::into_iter", "core::array::iter::<impl std::iter::IntoIterator for [T; N]>::into_iter")
         def _(ctx):
             a = ctx.args[0]
             return to_iter(ctx, a)
@@ -367,6 +368,10 @@ class Summaries:
         @reg('std::iter::Iterator::map')
         def _(ctx):
             return to_iter(ctx, ctx.args[0]).with_op(('map', ctx.args[1]), ctx.ret_ty)
+
+        @reg('std::iter::Iterator::flat_map')
+        def _(ctx):
+            return to_iter(ctx, ctx.args[0]).with_op(('flat_map', ctx.args[1]), ctx.ret_ty)
 
         @reg('std::iter::Iterator::filter')
         def _(ctx):
@@ -571,7 +576,7 @@ class Summaries:
 
         def apply_ops(ctx, it, results, keep_skips=False):
             """apply adaptor chain to produced elements"""
-            ops = [o for o in it.ops if o[0] in ('cloned', 'map', 'filter')]
+            ops = [o for o in it.ops if o[0] in ('cloned', 'map', 'filter', 'flat_map')]
             if not ops:
                 return results
             out = []
@@ -588,6 +593,12 @@ class Summaries:
                         elif op[0] == 'map':
                             for (s2, r) in eng.call_value(s, op[1], [x], ctx.depth, ctx.fr, ctx.bi):
                                 nxt.append((s2, r))
+                        elif op[0] == 'flat_map':
+                            # an arbitrary element of the inner iterator the closure returns (or nothing)
+                            for (s2, r) in eng.call_value(s, op[1], [x], ctx.depth, ctx.fr, ctx.bi):
+                                inner = to_iter(with_state(ctx, s2), r)
+                                for (s3, y) in iter_elem(ctx, s2, inner):
+                                    nxt.append((s3, y if y is not None else ('skip',)))
                         elif op[0] == 'filter':
                             for (s2, r) in eng.call_value(s, op[1], [mkref(s, x)], ctx.depth, ctx.fr, ctx.bi):
                                 if isinstance(r, BoolV):
@@ -1037,7 +1048,7 @@ class Summaries:
                 out.append((st, none(ty) if v is None else some(ty, v)))
             return out
 
-        @regx(r'as std::iter::Iterator>::next$|^std::iter::range::<impl std::iter::Iterator for std::ops::Range(Inclusive)?<A>>::next$|^std::boxed::iter::<impl std::iter::Iterator for std::boxed::Box<I, A>>::next$')
+        @regx(r'as std::iter::Iterator>::next$|^std::iter::Iterator::next$|^std::iter::range::<impl std::iter::Iterator for std::ops::Range(Inclusive)?<A>>::next$|^std::boxed::iter::<impl std::iter::Iterator for std::boxed::Box<I, A>>::next$')
         def _(ctx):
             r = ctx.args[0]
             it = deref1(ctx, r)
@@ -1399,6 +1410,85 @@ class Summaries:
         @regx(r'^<std::result::Result<T, F> as std::ops::FromResidual<.*>>::from_residual$')
         def _(ctx):
             return EnumV(ctx.ret_ty, {1}, {1: StructV('Err', {'0': OpaqueV('err', next(_c))})})
+
+        @reg('std::option::Option::<T>::unwrap_or_else')
+        def _(ctx):
+            f = ctx.args[1]
+            return fork_opt(ctx, ctx.args[0], lambda s, p: call_closure(ctx, s, f, []), lambda s, p: p)
+
+        @regx(r'^std::vec::Vec::<T, A>::(as_slice|as_mut_slice)$')
+        def _(ctx):
+            return ctx.args[0]
+
+        @reg('std::string::String::clear')
+        def _(ctx):
+            r = ctx.args[0]
+            if isinstance(r, RefV):
+                eng.write(ctx.st, r.path, StrV('', prov=('cleared',)), log=(r.path[0] == ('H', 'S')))
+            return UNIT
+
+        @reg('<std::string::String as std::convert::From<char>>::from')
+        def _(ctx):
+            v = deref(ctx, ctx.args[0])
+            if isinstance(v, CharV):
+                if v.known is not None:
+                    return StrV(v.known, prov=('char',))
+                sv = StrV(None, oid=next(_c), prov=('char', v.key()))
+                ctx.st.vn[('nonempty', sv.oid)] = True
+                ctx.st.vn[('firstchar', sv.oid)] = v
+                return sv
+            return StrV(None, oid=next(_c))
+
+        @regx(r'^std::char::methods::<impl char>::from_u32$|^core::char::methods::<impl char>::from_u32$|^std::char::from_u32$')
+        def _(ctx):
+            v = deref(ctx, ctx.args[0])
+            rty = ctx.ret_ty
+            if isinstance(v, NumV) and v.sym is None:
+                if 0 <= v.k <= 0x10ffff and not (0xd800 <= v.k <= 0xdfff):
+                    return some(rty, CharV(chr(v.k)))
+                return none(rty)
+            s2 = ctx.st.fork()
+            ch = eng.int_to_char(ctx.st, v) if isinstance(v, NumV) else CharV(None, next(_c))
+            return [(ctx.st, some(rty, ch)), (s2, none(rty))]
+
+        @regx(r'impl std::cmp::PartialEq<\[U(; N)?\]> for (&|&mut )?\[T(; N)?\]>::eq$|impl std::cmp::PartialEq<std::vec::Vec<U, A2?>> for (&|&mut )?\[T(; N)?\]>::eq$|'
+              r'impl std::cmp::PartialEq<(&|&mut )?\[U(; N)?\]> for std::vec::Vec<T, A>>::eq$|impl std::cmp::PartialEq<std::vec::Vec<U, A2>> for std::vec::Vec<T, A1>>::eq$')
+        def _(ctx):
+            a = deref(ctx, ctx.args[0])
+            b = deref(ctx, ctx.args[1])
+            if isinstance(a, CollV) and isinstance(b, CollV):
+                la = NumV(None, len(a.known), 'usize') if a.known is not None else a.length
+                lb = NumV(None, len(b.known), 'usize') if b.known is not None else b.length
+                if isinstance(la, NumV) and isinstance(lb, NumV):
+                    if eng.prove_cmp(ctx.st, 'ne', la, lb) is True or eng.prove_cmp(ctx.st, 'eq', la, lb) is False:
+                        return BoolV(False)
+                if a.known is not None and b.known is not None and len(a.known) == len(b.known):
+                    xs = [deref(ctx, x) for x in a.known]
+                    ys = [deref(ctx, y) for y in b.known]
+                    res = True
+                    for x, y in zip(xs, ys):
+                        if isinstance(x, NumV) and isinstance(y, NumV):
+                            r = eng.prove_cmp(ctx.st, 'eq', x, y)
+                        elif _is_const(x) and _is_const(y):
+                            r = x.key() == y.key()
+                        else:
+                            r = None
+                        if r is False:
+                            return BoolV(False)
+                        if r is None:
+                            res = None
+                    if res is True:
+                        return BoolV(True)
+                    # a single undecided numeric element: the comparison is that equality
+                    und = [(x, y) for x, y in zip(xs, ys) if isinstance(x, NumV) and isinstance(y, NumV) and eng.prove_cmp(ctx.st, 'eq', x, y) is None]
+                    if len(und) == 1 and all(isinstance(x, NumV) and isinstance(y, NumV) for x, y in zip(xs, ys)):
+                        return BoolV(None, ('cmp', 'eq', und[0][0], und[0][1]))
+                # unknown length on one side, known contents on the other: equal only if the lengths agree
+                if isinstance(la, NumV) and isinstance(lb, NumV) and (a.known is None) != (b.known is None):
+                    kn, un = (a, b) if a.known is not None else (b, a)
+                    # decided later by the branch: remember nothing more than a fact tied to both values
+                    return bool_fact(ctx, ('slice-eq', a.key(), b.key()))
+            return BoolV(None, ('fact', ('slice-eq?', next(_c))))
 
         @reg('std::option::Option::<T>::unwrap_or')
         def _(ctx):
@@ -2688,7 +2778,7 @@ class Summaries:
                  prov=('reversed', c.prov))
             return UNIT
 
-        @reg('std::slice::<impl [T]>::sort')
+        @reg('std::slice::<impl [T]>::sort', 'core::slice::<impl [T]>::sort_unstable')
         def _(ctx):
             path, c = coll_at(ctx, ctx.args[0])
             log(ctx, 'vec.sort', spath(path))
